@@ -702,6 +702,13 @@ class QueryObjectDescriptor(SymbolicExpression[T], ABC):
         for variable in self.selected_variables:
             variable._var_._node_.enclosed = True
 
+    def _start_evaluation_(self) -> None:
+        super()._start_evaluation_()
+        # the selected expressions are not necessarily part of the condition tree
+        for selected in self.selected_variables:
+            for node in selected._all_nodes_:
+                node._start_evaluation_()
+
     @lru_cache(maxsize=None)
     def _projection_(self, when_true: Optional[bool] = True) -> HashedIterable[int]:
         """
@@ -901,6 +908,12 @@ class From:
     The domain to use for the symbolic variable.
     """
 
+    live_type: Optional[Type] = None
+    """
+    Set for variables without an explicit domain: the domain is then the instances of this type (and of its subclasses)
+    that the symbol graph knows when an evaluation starts.
+    """
+
 
 @dataclass(eq=False, repr=False)
 class Variable(CanBehaveLikeAVariable[T]):
@@ -965,6 +978,15 @@ class Variable(CanBehaveLikeAVariable[T]):
         self._child_ = None
         if self._domain_source_:
             self._update_domain_(self._domain_source_.domain)
+
+    def _start_evaluation_(self) -> None:
+        super()._start_evaluation_()
+        source = self._domain_source_
+        if source is not None and source.live_type is not None:
+            # a variable without an explicit domain ranges over the instances that exist now, not over the ones an
+            # earlier evaluation of the same query has cached
+            self._domain_ = HashedIterable()
+            self._update_domain_(SymbolGraph().get_instances_of_type(source.live_type))
 
     def _update_domain_(self, domain):
         if domain:
